@@ -99,6 +99,23 @@ def check_cga(res, n, rng, reps):
                 d1 = float(((ix - iy) * (ix - iy)).value[0])
                 if abs(d0 - d1) > 1e-7 * max(1.0, abs(d0)) * mag(Bv.exp()) ** 2:
                     res.violate('rotation is not an isometry', dict(inp, B=Bv.value.tolist(), y=y.value[1:n + 1].tolist()), d1, d0, dict(site, op='rotation-isometry'))
+        # an operator called on the vectors eo and einf themselves acts by the versor product (they are points / the point at infinity, not base vectors)
+        res.case(('operator-on-eo-einf', n, tuple(inp['a'])), nontrivial=True)
+        with common.guard(res, 'operator(eo), operator(einf)', site, inp):
+            ops = [('translation', c.translation(a)), ('dilation', c.dilation(2.0)), ('transversion', c.transversion(a))]
+            if n >= 2:
+                ops.append(('rotation', c.rotation(0.75 * (E[0] ^ E[1]))))
+            for oname, O in ops:
+                for vname, v in (('einf', c.einf), ('eo', c.eo), ('eo+3einf', c.eo + 3.0 * c.einf), ('2einf', 2.0 * c.einf)):
+                    got, exp = O(v), O.mv * v * ~O.mv
+                    if not near(got, exp, mag(exp) + 1.0, 1e-9):
+                        res.violate('an operator applied to eo / einf does not act by the versor product', dict(inp, operator=oname, vector=vname), got.value.tolist(),
+                                    exp.value.tolist(), dict(site, op='operator-on-eo-einf', operator=oname, vector=vname))
+                if oname in ('translation', 'rotation') and not near(O(c.einf), c.einf, 1.0, 1e-9):
+                    res.violate(f'{oname} does not fix einf (through the operator call)', dict(inp, operator=oname), O(c.einf).value.tolist(), c.einf.value.tolist(),
+                                dict(site, op='operator-fixes-einf', operator=oname))
+                if oname == 'rotation' and not near(O(c.eo), c.eo, 1.0, 1e-9):
+                    res.violate('rotation does not fix eo (through the operator call)', inp, O(c.eo).value.tolist(), c.eo.value.tolist(), dict(site, op='operator-fixes-eo'))
         # transversion = inversion . translation . inversion
         res.case(('transversion', n, tuple(inp['a'])), nontrivial=bool(a.value.any()))
         with common.guard(res, 'transversion', site, inp):
@@ -161,6 +178,12 @@ def check_cga(res, n, rng, reps):
                 if not ok:
                     res.violate('round(p1..pk) is not a grade-k blade containing its defining points (dim = k-2)', pin, [sorted(grades), Rd.dim], [k, k - 2],
                                 dict(site, op='round-points', k=k))
+                for mname, mixed in (('first-base', [pts[0]] + nulls[1:]), ('first-null', [nulls[0]] + pts[1:])):
+                    res.case(('round-pts-mixed', n, k, mname, str(pin['points'])), nontrivial=True)
+                    Rm = c.round(*mixed)
+                    if not (set(int(g) for g in Rm.mv.grades()) == {k} and all(near(Rm.mv ^ q, zero, mag(Rm.mv) * mag(q), 1e-8) for q in nulls)):
+                        res.violate('round(p1..pk) with the points given partly as base vectors and partly as null vectors does not contain its defining points',
+                                    dict(pin, representation=mname), Rm.mv.value.tolist()[:8], 'a round through the points', dict(site, op='round-points-mixed', k=k, rep=mname))
             if k <= n:
                 res.case(('flat-pts', n, k, str(pin['points'])), nontrivial=True)
                 with common.guard(res, 'flat(p1..pk)', site, pin):
@@ -171,6 +194,14 @@ def check_cga(res, n, rng, reps):
                     if not ok:
                         res.violate('flat(p1..pk) is not a grade-(k+1) blade containing its defining points and einf', pin, [sorted(grades), Fl.mv.value.tolist()[:8]], k + 1,
                                     dict(site, op='flat-points', k=k))
+                    # the defining points may be given in either representation, also mixed: base vectors and null vectors describe the same points
+                    for mname, mixed in (('first-base', [pts[0]] + nulls[1:]), ('first-null', [nulls[0]] + pts[1:]), ('all-null', list(nulls))):
+                        res.case(('flat-pts-mixed', n, k, mname, str(pin['points'])), nontrivial=True)
+                        Fm = c.flat(*mixed)
+                        if not (set(int(g) for g in Fm.mv.grades()) == {k + 1} and all(near(Fm.mv ^ q, zero, mag(Fm.mv) * mag(q), 1e-8) for q in nulls)
+                                and near(Fm.mv ^ c.einf, zero, mag(Fm.mv), 1e-8)):
+                            res.violate('flat(p1..pk) with the points given partly as base vectors and partly as null vectors does not contain its defining points',
+                                        dict(pin, representation=mname), Fm.mv.value.tolist()[:8], 'a flat through the points', dict(site, op='flat-points-mixed', k=k, rep=mname))
                     # an operator applied to an object acts by the versor product
                     T = c.translation(a)
                     moved = T(Fl)
